@@ -135,6 +135,58 @@ func run(ng *promql.Engine, q storage.Queryable, fn string, ts, rng, off int64) 
 	return o, overlap, fmt.Errorf("%d result samples", len(vec))
 }
 
+// runRange runs rate(m[rng] offset off) as a range query over [start, end] with the given
+// step and returns, per step, the observed value (absent when the step has no output).
+func runRange(ng *promql.Engine, q storage.Queryable, start, end, step, rng, off int64) (steps []int64, out []obs, err error) {
+	defer func() {
+		if r := recover(); r != nil {
+			err = fmt.Errorf("panic: %v", r)
+		}
+	}()
+	expr := fmt.Sprintf("rate(m[%dms] offset %dms)", rng, off)
+	if off < 0 {
+		expr = fmt.Sprintf("rate(m[%dms] offset -%dms)", rng, -off)
+	}
+	qry, err := ng.NewRangeQuery(context.Background(), q, nil, expr, time.UnixMilli(start), time.UnixMilli(end), time.Duration(step)*time.Millisecond)
+	if err != nil {
+		return nil, nil, err
+	}
+	defer qry.Close()
+	res := qry.Exec(context.Background())
+	if res.Err != nil {
+		return nil, nil, res.Err
+	}
+	mat, err := res.Matrix()
+	if err != nil {
+		return nil, nil, err
+	}
+	if len(mat) > 1 {
+		return nil, nil, fmt.Errorf("%d result series", len(mat))
+	}
+	got := map[int64]float64{}
+	if len(mat) == 1 {
+		if len(mat[0].Histograms) > 0 {
+			return nil, nil, fmt.Errorf("histogram result")
+		}
+		for _, p := range mat[0].Floats {
+			got[p.T] = p.F
+		}
+	}
+	for t := start; t <= end; t += step {
+		steps = append(steps, t)
+		if v, ok := got[t]; ok {
+			out = append(out, obs{true, v})
+			delete(got, t)
+		} else {
+			out = append(out, obs{})
+		}
+	}
+	if len(got) != 0 {
+		return nil, nil, fmt.Errorf("output at a non-step timestamp")
+	}
+	return steps, out, nil
+}
+
 // ---- printing ---------------------------------------------------------------------------------
 
 func qOf(f float64) string {
@@ -156,6 +208,13 @@ func optQ(o obs) string {
 	return "(Some " + qOf(o.v) + ")"
 }
 
+func stepList(it []string) string {
+	if len(it) == 0 {
+		return "([] : list (Z * option Q))"
+	}
+	return gallina.List(it)
+}
+
 func samplesTerm(ss []smp) string {
 	it := make([]string, len(ss))
 	for i, s := range ss {
@@ -172,6 +231,7 @@ type desc struct {
 	Off     int64    `json:"offset_ms"`
 	Obs     []string `json:"obs"`
 	Overlap bool     `json:"overlap_warning"`
+	Steps   []string `json:"range_query_steps,omitempty"`
 	Shape   string   `json:"shape"`
 	Corpus  string   `json:"corpus,omitempty"`
 }
@@ -183,6 +243,8 @@ type tcase struct {
 	useST       bool
 	ts, rng, of int64
 	corpus      string
+	nsteps      int   // > 0: also run rate() as a range query ending at ts
+	step        int64 // its step (ms)
 }
 
 var intervals = []int64{1000, 5000, 10000, 15000, 30000, 60000, 7000, 3000, 12345}
@@ -414,6 +476,10 @@ func genCase(r *gen.Rand) tcase {
 		c.of = r.PickI64(1, 1000, 5000, 60000, 123457, -1000, -60000)
 	}
 	c.ts = re + c.of
+	if r.Chance(1, 3) {
+		c.nsteps = 2 + r.Intn(5)
+		c.step = r.PickI64(iv, iv/2, 2*iv, iv+1, c.rng, 1, iv/3+1)
+	}
 	return c
 }
 
@@ -462,6 +528,9 @@ func corpus() []tcase {
 	// equal values, equal negative, gauge
 	l = append(l, tcase{ss: reg(100000, 5000, 3, 3, 3, 3), ts: 117000, rng: 20000, corpus: "equal"})
 	l = append(l, tcase{ss: reg(100000, 5000, -3, 4, -1.5, 2.25), ts: 117000, rng: 20000, corpus: "gauge"})
+	// range queries: the matrix buffer (and its start timestamps) is reused between steps
+	l = append(l, tcase{ss: withST(reg(100000, 10000, 5, 8, 9, 3, 6, 10), 50000, 50000, 50000, 125000, 125000, 125000), useST: true, ts: 161000, rng: 30000, nsteps: 6, step: 10000, corpus: "range-query-st"})
+	l = append(l, tcase{ss: reg(100000, 10000, 1, 2, 4, 7, 11, 16), ts: 161000, rng: 25000, nsteps: 5, step: 7000, corpus: "range-query"})
 	return l
 }
 
@@ -469,7 +538,7 @@ func main() {
 	f := gallina.ParseFlags()
 	meta := gallina.NewMeta("C30", f.Seed, f.Tier)
 	meta.Rule = "corpus + seeded cases: one float series (0..10 samples; regular/irregular spacing, missed scrapes; counter/reset/constant/gauge/dyadic values; start timestamps absent/cumulative/reset/delta/unknown/overlapping) and a range chosen so that the window holds samples i..j and both boundary distances are steered to the 1.1x threshold (tie, +-1ms), the zero point or the first ST; non-trivial = window holds >= 2 samples (rate is defined) or the single-sample ST path fires; distinct by (series, ts, range, offset, use_st)"
-	cf := &gallina.CaseFile{Dir: f.Out, Type: "case", PerShard: 2500,
+	cf := &gallina.CaseFile{Dir: f.Out, Type: "case", PerShard: 800,
 		Preamble: "From Coq Require Import List ZArith QArith.\nFrom Verif Require Import model.Rate corr.CorrC30.\nImport ListNotations.\nOpen Scope Z_scope.\n",
 		Footer:   gallina.StdFooter}
 	engines := map[bool]*promql.Engine{true: newEngine(true), false: newEngine(false)}
@@ -505,6 +574,30 @@ func main() {
 			} else {
 				obsS = append(obsS, fn+"=absent")
 			}
+		}
+		var stepTerms, stepS []string
+		if c.nsteps > 0 && bad == "" {
+			start := c.ts - int64(c.nsteps-1)*c.step
+			sts, outs, err := runRange(engines[c.useST], q, start, c.ts, c.step, c.rng, c.of)
+			if err != nil {
+				bad = fmt.Sprintf("range query: %v", err)
+			}
+			for k := range sts {
+				if outs[k].present && (math.IsNaN(outs[k].v) || math.IsInf(outs[k].v, 0)) {
+					bad = fmt.Sprintf("range query: non-finite result %v", outs[k].v)
+					break
+				}
+				stepTerms = append(stepTerms, gallina.Pair(gallina.Z(sts[k]), optQ(outs[k])))
+				if outs[k].present {
+					stepS = append(stepS, fmt.Sprintf("%d:%v", sts[k], outs[k].v))
+				} else {
+					stepS = append(stepS, fmt.Sprintf("%d:absent", sts[k]))
+				}
+			}
+			if bad != "" {
+				stepTerms, stepS = nil, nil
+			}
+			meta.Hit("range-query")
 		}
 		// classification (harness-side bookkeeping only; Coq recomputes everything it judges)
 		rs, re := c.ts-c.of-c.rng, c.ts-c.of
@@ -579,19 +672,19 @@ func main() {
 			shape = "engine-error"
 			meta.GoViol = append(meta.GoViol, gallina.GoViolation{ID: fmt.Sprint(id), Shape: shape, What: bad})
 		}
-		cf.Add(fmt.Sprintf("mkCase %s %s %s %s %s %s %s %s %s %s %s %s %s %s",
+		cf.Add(fmt.Sprintf("mkCase %s %s %s %s %s %s %s %s %s %s %s %s %s %s %s",
 			gallina.Z(int64(id)), samplesTerm(c.ss), gallina.Bool(c.useST),
 			gallina.Z(c.ts), gallina.Z(c.rng), gallina.Z(c.of),
 			optQ(os[0]), optQ(os[1]), optQ(os[2]), optQ(os[3]), optQ(os[4]), optQ(os[5]), optQ(os[6]),
-			gallina.Bool(overlap)))
-		meta.Case(id, desc{Samples: c.ss, UseST: c.useST, Ts: c.ts, Range: c.rng, Off: c.of, Obs: obsS, Overlap: overlap, Shape: shape, Corpus: c.corpus})
+			gallina.Bool(overlap), stepList(stepTerms)))
+		meta.Case(id, desc{Samples: c.ss, UseST: c.useST, Ts: c.ts, Range: c.rng, Off: c.of, Obs: obsS, Overlap: overlap, Steps: stepS, Shape: shape, Corpus: c.corpus})
 		meta.Evaluations++
 		id++
 	}
 	for _, c := range corpus() {
 		emit(c)
 	}
-	n := f.Count(2500, 60000)
+	n := f.Count(1200, 40000)
 	for i := 0; i < n; i++ {
 		emit(genCase(gen.Fork(f.Seed, i)))
 	}
